@@ -26,8 +26,11 @@ def run_check(prop, tier, scratch):
     env = dict(os.environ)
     env["VERIF_EVIDENCE_DIR"] = str(scratch / "evidence")
     env["VERIF_REPLAY_DIR"] = str(scratch / "replays" / prop)
-    r = subprocess.run([str(HERE / "check"), prop, "--tier", tier], stdout=subprocess.PIPE, stderr=subprocess.STDOUT,
-                       text=True, env=env, cwd=str(VERIF))
+    try:
+        r = subprocess.run([str(HERE / "check"), prop, "--tier", tier], stdout=subprocess.PIPE,
+                           stderr=subprocess.STDOUT, text=True, env=env, cwd=str(VERIF), timeout=600)
+    except subprocess.TimeoutExpired:
+        return prop, 2, ["TIMEOUT after 600 s"]
     lines = [l for l in r.stdout.splitlines() if l.startswith(("VIOLATION", "OK", "KNOWN-FINDING", "  "))]
     return prop, r.returncode, lines[:4]
 
